@@ -10,6 +10,8 @@ import (
 	"flag"
 	"fmt"
 	"hash/fnv"
+	"os"
+	"os/exec"
 	"strings"
 	"time"
 
@@ -334,6 +336,39 @@ func c04Units(tier string, seed int64) []Unit {
 						Replay: map[string]any{"engine": "seed", "seed": uint64(seed)*3 + sd, "message": m}})
 					break
 				}
+			}
+		}
+	}})
+	// ... and not on the platform: the same expressions (value types independent of the word size) draw the same
+	// values from the same seeds and buffers in a 64-bit and in a 32-bit build of the library
+	units = append(units, Unit{Name: "C04/cross-platform amd64 vs 386", Run: func(c *Ctx) {
+		b64, b32 := os.Getenv("VERIF_PLAT_BIN"), os.Getenv("VERIF_PLAT386_BIN")
+		if b64 == "" || b32 == "" {
+			c.Cap("the 32-bit digest program could not be built here: cross-platform comparison not run")
+			return
+		}
+		o64, err1 := exec.Command(b64).Output()
+		o32, err2 := exec.Command(b32).Output()
+		if err1 != nil || err2 != nil {
+			c.Cap(fmt.Sprintf("digest programs did not run (%v, %v): cross-platform comparison not run", err1, err2))
+			return
+		}
+		l64, l32 := strings.Split(strings.TrimSpace(string(o64)), "\n"), strings.Split(strings.TrimSpace(string(o32)), "\n")
+		if len(l64) != len(l32) || len(l64) < 100 {
+			c.R.HarnessErr = fmt.Sprintf("digest outputs have %d and %d lines", len(l64), len(l32))
+			return
+		}
+		bad := map[string]bool{}
+		for i := range l64 {
+			c.R.Evals += 2
+			c.R.States++
+			c.R.Transitions += 2
+			f := strings.SplitN(l64[i], "\t", 2)
+			c.Outcome(l64[i], true)
+			if l64[i] != l32[i] && !bad[f[0]] {
+				bad[f[0]] = true
+				c.Violate(Violation{Sig: "C04 platform-dependent-draws prog=" + f[0], Detail: "64-bit build: " + l64[i] + "\n32-bit build: " + l32[i] + "\n(columns: expression, seed or buffer, verdict, words consumed, value)",
+					Replay: map[string]any{"engine": "platdigest", "line": i}})
 			}
 		}
 	}})
